@@ -24,8 +24,9 @@ torch.library.define("quanto::qbytes_mm", "(Tensor A, Tensor B, Tensor scales) -
 
 def qbytes_mm(activations: torch.Tensor, weights: torch.Tensor, output_scales: torch.Tensor) -> torch.Tensor:
     mm_dtype = output_scales.dtype
-    if activations.dtype == torch.int8 or weights.dtype == torch.int8:
-        # If one of the terms is an int the matmul might overflow
+    quantized_dtypes = (torch.int8, torch.float8_e4m3fn, torch.float8_e5m2)
+    if activations.dtype in quantized_dtypes or weights.dtype in quantized_dtypes:
+        # If one of the terms contains unscaled integer or float8 values the matmul might overflow
         mm_dtype = torch.float32
     activations = activations.to(mm_dtype)
     weights = weights.to(mm_dtype)
